@@ -262,6 +262,16 @@ func scenarios() []scenario {
 			e.caller("B", func(rec func(string, error)) { rec("noop", e.c.Noop().Wait()) })
 			return e.finish()
 		}},
+		{name: "cut-inside-completion+2callers", body: func() interface{} {
+			e := setup(greetCaps)
+			e.srv.Cut = true
+			e.caller("A", func(rec func(string, error)) { rec("noop", e.c.Noop().Wait()) })
+			e.caller("B", func(rec func(string, error)) {
+				_, err := e.c.Status("INBOX", status).Wait()
+				rec("status", err)
+			})
+			return e.finish()
+		}},
 		{name: "drop+sync-literal", body: func() interface{} {
 			e := setup("* OK [CAPABILITY IMAP4rev1] ready\r\n")
 			e.srv.Drop = true
@@ -559,7 +569,7 @@ func main() {
 	run.Set("preemption_bound", int64(pbound))
 	run.Set("max_executions_per_scenario", maxExec)
 	run.Exhaustive = exhaustive
-	run.Rule = "scenario = N caller threads + reactive scripted server (+ environment-chosen connection drop: clean close or reset before any command) + the client's own reader/helper goroutines, all under the controlled scheduler with a scheduling point before every lock, after every unlock, at every channel operation, select, spawn and connection read/write; DFS over all schedules with at most `preemption_bound` deviations (preemptions and non-default environment answers). distinct_nontrivial = distinct (scenario, verdict, per-command outcome vector) observed"
+	run.Rule = "scenario = N caller threads + reactive scripted server (+ environment-chosen connection drop: clean close or reset before any command, or inside a tagged completion line) + the client's own reader/helper goroutines, all under the controlled scheduler with a scheduling point before every lock, after every unlock, at every channel operation, select, spawn and connection read/write; DFS over all schedules with at most `preemption_bound` deviations (preemptions and non-default environment answers). distinct_nontrivial = distinct (scenario, verdict, per-command outcome vector) observed"
 	run.Assume("data races themselves are not visible to a cooperative scheduler; this check decides their behavioural consequences (lost/duplicate completions, hangs, panics); see DESIGN §3.2.6")
 	run.Assume("in-memory connection: writes never block")
 	run.Finish()
